@@ -1370,6 +1370,36 @@ GEN(int) @Strings(s string) {
 	RETURN
 }`, Drives: []Drive{gen("int", "@Ints", "6"), gen("int", "@Ints", "0"), gen("int", "@Slices", "[]int{5, 6, 7}"), gen("int", "@Strings", `"aé!"`)}},
 
+	{Name: "LoopVariableWrittenInBody", Props: []string{"C03", "C01"}, Src: `
+// the body of a three-clause loop writes the loop variable - directly, and through a closure made in the same
+// iteration - and the post statement and the condition see it (the closures are only called in the iteration
+// that made them, so the result is the same with one variable per loop and one per iteration)
+GEN(int) @Skip(n int) {
+	for i := 0; i < n; i++ {
+		cur := func() int { return i }
+		YIELD(cur())
+		if i%3 == 1 { i += 2 }
+	}
+	RETURN
+}
+GEN(int) @Bump(n int) {
+	for i := 0; i < n; i++ {
+		bump := func() { i++ }
+		YIELD(i)
+		bump()
+		YIELD(i * 10)
+	}
+	RETURN
+}
+GEN(int) @Down(n int) {
+	for i, j := 0, n; i < j; i, j = i+1, j-1 {
+		shrink := func() { j-- }
+		YIELD(10*i + j)
+		if i == 1 { shrink() }
+	}
+	RETURN
+}`, Drives: []Drive{gen("int", "@Skip", "8"), gen("int", "@Bump", "4"), gen("int", "@Down", "6")}},
+
 	{Name: "TypeSwitchScopes", Props: []string{"C03", "C01"}, Src: `
 GEN(int) @G(vs []any) {
 	for _, v := range vs {
